@@ -73,7 +73,7 @@ func genTable(t *rapid.T, name string, keyKind string) c08Table {
 	}
 	// extra columns: an object, a nullable object, a list, a union of scalars
 	obj := gen.JT{K: "struct", Names: []string{"f", "g"}, Parts: []gen.JT{{K: "int"}, {K: "union", Parts: []gen.JT{{K: "null"}, {K: "str"}}}}}
-	tb.Extra = []gen.JT{obj, {K: "union", Parts: []gen.JT{{K: "null"}, obj}}, {K: "list", Elem: &gen.JT{K: "float"}}, {K: "union", Parts: []gen.JT{{K: "int"}, {K: "str"}}}}
+	tb.Extra = []gen.JT{obj, {K: "union", Parts: []gen.JT{{K: "null"}, obj}}, {K: "list", Elem: &gen.JT{K: "float"}}, {K: "union", Parts: []gen.JT{{K: "int"}, {K: "str"}}}, {K: "null"}}
 	rows := rapid.IntRange(0, 7).Draw(t, name+"rows")
 	for r := 0; r < rows; r++ {
 		row := make([]gen.JV, n)
@@ -115,7 +115,7 @@ func genTable(t *rapid.T, name string, keyKind string) c08Table {
 		if rapid.Bool().Draw(t, lab+"u") {
 			u = gen.Str("u")
 		}
-		tb.XRows = append(tb.XRows, []gen.JV{o, no, gen.JV{K: "list", L: l}, u})
+		tb.XRows = append(tb.XRows, []gen.JV{o, no, gen.JV{K: "list", L: l}, u, gen.Null()})
 	}
 	return tb
 }
@@ -134,10 +134,20 @@ func extraItems(t *rapid.T, tb c08Table, alias string, label string) []string {
 	pool := []string{
 		alias + ".x0->f", alias + ".x0->g", alias + ".x1->f", alias + ".x1->g", alias + ".x2[0]", alias + ".x2[5]", "len(" + alias + ".x2)", alias + ".x3::int", alias + ".x3::string",
 		"coalesce(" + alias + ".x1, " + alias + ".x0)", "coalesce(" + alias + ".x3::int, 0)", "string(" + alias + ".x0)", "(" + alias + ".x3 = 5)", "int(" + alias + ".x3::string)",
+		"coalesce(" + alias + ".k, NULL)", "coalesce(" + alias + ".k, " + alias + ".x4)", "coalesce(NULL, 5)", "coalesce(" + alias + ".x4, " + alias + ".x4)", "(" + alias + ".x4 IS NULL)",
+		"int(1e300)", "int(sqrt(0.0 - 7.9))", "int(1.0 / 0.0)", "int(0.0 - 1e300)", "float(9223372036854775807)", "abs((0 - 9223372036854775807) - 1)",
 		"time_from_unix(1)", "INTERVAL 1 SECOND", "(1, 'a')", "(SELECT s.k FROM mem." + tb.Spec.Format + " s)", "len('x')", "position('abc', 'c')", "position('abc', 'z')", "parse_time('2006', 'zz')", "parse_time('2006', '2020')",
 	}
 	for _, s := range strCols {
 		pool = append(pool, "int("+s+")", "float("+s+")", "int("+s+") + 1", "float("+s+") * 2.0", "(int("+s+") IS NULL)", "coalesce(int("+s+"), 0)", "position("+s+", 'b')", "len("+s+")", "upper("+s+")")
+	}
+	for i, c := range tb.Spec.Cols {
+		ref := alias + "." + c.Name
+		pool = append(pool, "coalesce("+ref+", NULL)", "coalesce("+ref+", "+alias+".x4)")
+		if c.Kind == "float" {
+			pool = append(pool, "int("+ref+" * 1e300)", "int("+ref+" / 0.0)", "int(sqrt("+ref+"))")
+		}
+		_ = i
 	}
 	for _, s := range numCols {
 		pool = append(pool, "string("+s+")", "abs("+s+")", "("+s+" IN (1, 2))")
@@ -230,7 +240,7 @@ func c08Prop(c c08Case) ev.Outcome {
 
 func TestC08(t *testing.T) {
 	r := ev.New("C08", "exploration",
-		"in-memory tables whose columns are declared nullable or NOT nullable (values conform to the declared types; plus object, nullable object, list and Int|String union columns) x well-typed queries: the typed grammar (expressions to depth 3, DISTINCT, ORDER BY, LIMIT, subqueries), GROUP BY with all aggregates, inner/lookup/left/right/outer joins, and hand-written items over int()/float() of strings, string(), :: casts, -> field access on (nullable) objects, list indexing, COALESCE, IN, position, parse_time, tuples, subquery expressions; "+
+		"in-memory tables whose columns are declared nullable or NOT nullable (values conform to the declared types; plus object, nullable object, list and Int|String union columns) x well-typed queries: the typed grammar (expressions to depth 3, DISTINCT, ORDER BY, LIMIT, subqueries), GROUP BY with all aggregates, inner/lookup/left/right/outer joins, and hand-written items over int()/float() of strings, string(), :: casts, -> field access on (nullable) objects, list indexing, COALESCE (incl. NULL literals and an all-NULL column), int() of NaN/Inf/huge floats, IN, position, parse_time, tuples, subquery expressions; "+
 			"typechecked, optimised (50%), materialised and run by the real pipeline in-process; oracle: every value of every output row inhabits the type the plan reports for its column (the type --describe prints): harness-own Conforms predicate. non-trivial: the query applies a function and some output value is NULL. distinct = canonical case JSON",
 		"queries the typechecker rejects are discarded (counted); a reported run-time error is not a typing question")
 	ev.Check(t, r, "values_conform_to_reported_types", ev.N(120000, 3000000), genCase, c08Prop)
